@@ -20,6 +20,11 @@ RULE = ("cases: random trees 1..7 nodes (all ordered trees <= 5 nodes in the tho
         "(REDUCED, FULL, KEEP), random centre, then 0..6 centre moves. non-trivial = distinct case with >= 3 nodes "
         "or a redundant/rank-deficient bond")
 PARTIAL = ["Q is an isometry and Q R = tensor is the contract of numpy.linalg.qr (validated on every resulting tensor)",
+           "proved is the bookkeeping: which node is split toward which neighbour, for every distance table "
+           "(canon_gauge, move_gauge) and, with C17's dist_table, for every well-formed tree and centre incl. completion "
+           "(canon_gauge_tree); that the recorded tensors are isometries then follows from the QR contract and the "
+           "composition lemmas (env_isometry_compose/kron, keep_mode_padding) - this last step is not formalised as one "
+           "theorem about a tensor network, it is checked per node by the oracle",
            "state invariance (value level) is decided per input by the dense oracle"]
 ASSUMPTIONS = ["numpy.linalg.qr contract", "dense contraction by tensordot over labelled legs"]
 
